@@ -162,3 +162,25 @@ Proof.
   destruct (Hfull eq_refl) as [(_ & _ & _ & _ & _ & Hpm' & _) Hbal]. cbn [w_pm set_pm] in Hpm'.
   unfold slackP. rewrite Hpm', Hres, (Hbal PM d). cbn [camt leaves_eff]. unfold ind. destruct (String.eqb PM sender), (String.eqb PM PM); lia.
 Qed.
+
+(* transactions to the epoch manager and to the fee collector do not concern the pool manager *)
+Theorem em_fc_tx_excess w sender target m funds w' :
+  sender <> PM -> target = EM \/ target = FC ->
+  run_tx w sender target m funds = Ok w' ->
+  forall d, slackP w' d = slackP w d.
+Proof.
+  intros Hs Ht H d.
+  destruct (leaf_tx_full _ _ _ _ _ _ H) as (wa & w2 & msgs & Hsa & Hsup & Eh & Hfull).
+  apply handle_ok_typed in Eh. destruct Eh as (Eh & _ & _). unfold handle_typed in Eh.
+  pose proof Hsa as (_ & _ & _ & _ & _ & Hpma & _).
+  assert (Hfacts : msgs = [] /\ w_pm w2 = w_pm wa).
+  { destruct Ht as [->| ->]; cbn [String.eqb EM FC PM FM Ascii.eqb Bool.eqb] in Eh; destruct m; try discriminate.
+    - apply bind_ok in Eh. destruct Eh as [s [_ Eh]]. inversion Eh; subst. split; reflexivity.
+    - apply bind_ok in Eh. destruct Eh as [[] [_ Eh]]. apply bind_ok in Eh. destruct Eh as [o [_ Eh]]. inversion Eh; subst. split; reflexivity. }
+  destruct Hfacts as (-> & Hpm2).
+  destruct (Hfull eq_refl) as [(_ & _ & _ & _ & _ & Hpm' & _) Hbal].
+  unfold slackP. rewrite Hpm', Hpm2, Hpma, (Hbal PM d). cbn [leaves_eff].
+  assert (Hsp : String.eqb PM sender = false) by (apply String.eqb_neq; congruence).
+  assert (Htp : String.eqb PM target = false) by (destruct Ht as [->| ->]; reflexivity).
+  rewrite Hsp, Htp. unfold ind. lia.
+Qed.
